@@ -372,7 +372,14 @@ func (l *lemmas) discharge(s *Site) (string, bool) {
 				}
 			}
 			// invoke on the Profile of a register entry
-			if strings.Contains(s.What, "lookup(g:"+l.regName()) || strings.Contains(s.What, "v:next#") || strings.Contains(s.What, "(entry)") {
+			isEntry := func(what string) bool {
+				return strings.Contains(what, "lookup(g:"+l.regName()) || strings.Contains(what, "v:next#") || strings.Contains(what, "(entry)")
+			}
+			all := len(s.UnsafeWhat) > 0
+			for what := range s.UnsafeWhat {
+				all = all && isEntry(what)
+			}
+			if all {
 				if l.register() {
 					return "register entries hold non-nil profiles: the only writer invoked the profile before storing it", true
 				}
